@@ -184,11 +184,45 @@ std::string printConnections(const ComponentMap &componentMap, const VariableMap
     return connections;
 }
 
+/**
+ * @brief Remove the white space that follows a '>' or precedes a '<'.
+ *
+ * A plain scan: a regular expression such as ">[\\s]*" makes std::regex_replace
+ * recurse once per matched character, which exhausts the stack on a long run of
+ * white space.
+ *
+ * @param in The string to clean.
+ *
+ * @return The string without white space between markup and content.
+ */
+std::string removeWhitespaceAroundMarkup(const std::string &in)
+{
+    std::string out;
+    out.reserve(in.size());
+    size_t i = 0;
+    while (i < in.size()) {
+        if (std::isspace(static_cast<unsigned char>(in[i])) != 0) {
+            size_t j = i;
+            while ((j < in.size()) && (std::isspace(static_cast<unsigned char>(in[j])) != 0)) {
+                ++j;
+            }
+            bool afterMarkup = !out.empty() && (out.back() == '>');
+            bool beforeMarkup = (j < in.size()) && (in[j] == '<');
+            if (!afterMarkup && !beforeMarkup) {
+                out.append(in, i, j - i);
+            }
+            i = j;
+        } else {
+            out.push_back(in[i]);
+            ++i;
+        }
+    }
+    return out;
+}
+
 std::string Printer::PrinterImpl::printMath(const std::string &math)
 {
     static const std::string wrapElementName = "math_wrap_as_single_root_element";
-    static const std::regex before(">[\\s\n\t]*");
-    static const std::regex after("[\\s\n\t]*<");
     static const std::regex xmlDeclaration(R"|(<\?xml[[:space:]]+version=.*\?>)|");
 
     XmlDocPtr xmlDoc = std::make_shared<XmlDoc>();
@@ -205,8 +239,7 @@ std::string Printer::PrinterImpl::printMath(const std::string &math)
             childNode = childNode->next();
         }
         // Clean whitespace in the math.
-        result = std::regex_replace(result, before, ">");
-        return std::regex_replace(result, after, "<");
+        return removeWhitespaceAroundMarkup(result);
     } else {
         for (size_t i = 0; i < xmlDoc->xmlErrorCount(); ++i) {
             auto issue = Issue::IssueImpl::create();
